@@ -29,6 +29,8 @@ func init() {
 			{"C10/binary-width", "every direct byte-order read or write (binary.LittleEndian.UintN / PutUintN) on a request path has an argument proven long enough", c10BinaryWidth},
 			{"C10/relay-conn", "the relay goroutine is started only with a connection that was dialled successfully", c10RelayConn},
 			{"C10/hijack-nil", "the packet loop starts only with both transports set", c10HijackNil},
+			{"C10/nil-result", "a pointer result of a call whose error is tested is dereferenced only where that test protects it (a failing gRPC/parse call returns nil)", c10NilResult},
+			{"C10/write-serialised", "one writer at a time on a client connection: WritePacket only under the tunnel's write mutex (two concurrent writers make the websocket library panic; C09's tunnel rule)", func(c *Ctx) { c09TunnelAs(c, "C10/write-serialised") }},
 			{"C10/conn-writers", "client connections are written only through Tunnel.Write: two writers on one websocket connection make the library panic (C09's rule)", func(c *Ctx) { c09ConnWritersAs(c, "C10/conn-writers") }},
 		},
 	})
